@@ -23,7 +23,10 @@ for d in sorted(glob.glob('seeded/*/')):
     needs = m.get('needs_to_manifest', '').replace('|', '/').replace('\n', ' ')
     needs = re.sub(r'\*\*|`', '', needs)
     rows.append('| %s | %s | %s | %s | %s |' % (name, m['property'], needs[:160], v + ((' — ' + note) if note else ''), first[:110]))
-table = ['%d seeded changes kept, %d caught by the quick check of the property they break.' % (tot, caught), '',
+nb = sum(1 for n in res if 'CAUGHT by' in res[n][0])
+missed = sum(1 for n in res if res[n][0] == 'MISSED')
+notrun = tot - len([n for n in res if os.path.isdir('seeded/' + n)])
+table = ['%d seeded changes kept: %d caught by the quick check of the property they were written against, %d missed by that check but caught by the check of a neighbouring property, %d missed by every check (discussed in 9.1), %d not run on the final tree.' % (tot, caught, nb, missed, notrun), '',
          '| seeded change | property | needs, to manifest | verdict of `./check.sh <property> quick` | first failing obligation |', '|---|---|---|---|---|'] + rows
 s = open('DESIGN.md').read()
 a, b = '<!-- SEEDED-TABLE-BEGIN -->', '<!-- SEEDED-TABLE-END -->'
